@@ -2,16 +2,11 @@ import verif  # noqa: F401
 from checks import fc_common
 
 MANIFEST = dict(
-    text="Coq: executable Impl model of ProtoArray/ProtoVoteStore/ProtoForkChoice (as repaired by fixes/C09-*, C10-*, C11-*.diff) and a Spec "
-         "that answers every navigation query by a direct walk of the set of inserted (root, slot) nodes. Theorems (coq/Properties/C11.v) "
-         "are about all histories; what is not yet proved for all histories is stated as C11_full and covered by _partial theorems. "
-         "Tie to /repo: random and directed operation histories (forks, gap slots, late/duplicate blocks, double proposals, prunes) are run on the "
-         "real Go code; every query result is compared with the Impl model and, independently, with the Spec walk; unknown and pruned roots must be reported unknown.",
-    note="Trusted: Coq kernel+VM, harness/driver, the hand-written model (tied by execution), the Spec reading of zrnt's block/slot graph. "
-         "Known finding prune_keeps_late_fork (nodes inserted after the new finalized node on other branches survive a prune) is reported as KNOWN-FINDING.",
-    technique="Coq proof (invariants over operation histories) + Go-vs-model-vs-spec differential correspondence on operation histories",
+    text='PARTIAL proof + correspondence. Coq: executable Impl model of ProtoArray/ProtoVoteStore/ProtoForkChoice and a Spec that answers every query by a direct walk of the set of inserted (root, slot) nodes. Proved for ALL histories of ProcessSlot/ProcessBlock in the domain (simulation relation, induction on the history): the node table is exactly the tree of accepted insertions, `indices`/`blockSlots` are its membership and lowest-slot tables, ProcessBlock answers the tree rule, GetSlot = lowest known slot (unknown roots unknown), no panic; snapshot defects as machine-checked `_refuted` witnesses. Not proved (stated as C11_queries_refine): the walking queries and histories with votes/updates/prunes. Tie to /repo on every run: random and directed histories (forks, gap slots, late/duplicate blocks, double proposals, prunes at block and gap-slot anchors, unknown/pruned roots, slots before the anchor and after the head) run on the Go code; every result is compared with the Impl model (plus private-state checksum) and, independently, with the Spec walk.',
+    note="Trusted: Coq kernel+VM, harness/driver, the hand-written Impl model (tied to /repo by differential execution of histories: values, sink calls, private-state checksum through verif_hooks.go), the Spec (my reading of the property on zrnt's block/slot graph, design/C09-C11.md). No axioms (Print Assumptions: closed). PARTIAL: the refinement Impl=Spec over all histories (Cxx_full / *_refine(s) in coq/Properties) is not proved in full; the part not proved rests on the correspondence runs. Known finding prune_keeps_late_fork (OnPrune drops a prefix of the node table only) is reported as KNOWN-FINDING. The model describes /repo with fixes/SERIES-forkchoice applied; on the unpatched tree the check reports VIOLATIONs with the failing history.",
+    technique="Coq proof (simulation/invariants over operation histories, partial) + Go-vs-Impl-vs-Spec differential correspondence on operation histories",
     design="4/C09-C11")
 
 
 def make_check():
-    return fc_common.make("C11")
+    return fc_common.make('C11')
